@@ -90,7 +90,13 @@ static void monitor_cb(hx_txrec *r, htp_tx_t *tx, int kind, const uint8_t *data,
     int side, rk = rank_of(kind, &side);
     int is_raw = (kind == CB_REQ_HEADER_DATA || kind == CB_REQ_TRAILER_DATA || kind == CB_RES_HEADER_DATA || kind == CB_RES_TRAILER_DATA);
     int is_marker = ((kind == CB_REQ_BODY || kind == CB_RES_BODY || kind == CB_REQ_BODY_TX || kind == CB_RES_BODY_TX || kind == CB_REQ_FILE) && has_data && data == NULL && len == 0);   /* the PUT file hook mirrors the body hook, marker included */
-    if (is_marker) {
+    if (kind == CB_REQ_FILE && !is_marker) {
+        /* file data comes from a content handler: for PUT it mirrors the body callback (which is ordered itself), for multipart the parser hands
+         * part data out when it has seen what follows it - the last piece only when the body is finalized, i.e. after a trailer: it must precede
+         * REQUEST_COMPLETE, nothing more */
+        if (r->rank[side] >= 5)
+            hx_verdict_add("C05", "file_after_complete", "tx %d: file data callback after REQUEST_COMPLETE", ord);
+    } else if (is_marker) {
         /* the end-of-body marker is produced by the completion step (after a trailer, if any); it only has to
          * precede the side's COMPLETE callback */
         if (r->rank[side] >= 5)
